@@ -569,8 +569,10 @@ func (v *FnVerifier) checkEnsures(fr *Frame, st *State, res []Val, pos token.Pos
 		o.Group = en.Group
 	}
 	// reachability of this return (vacuity guard)
-	o := v.addObl(st, "cover", fmt.Sprintf("ret%d", retNo), "false", "return is reachable under the precondition", v.fc.Serves, pos)
-	o.Cover = true
+	if v.fc.Opts["partial"] == "" { // "partial": the precondition deliberately excludes some paths
+		o := v.addObl(st, "cover", fmt.Sprintf("ret%d", retNo), "false", "return is reachable under the precondition", v.fc.Serves, pos)
+		o.Cover = true
+	}
 	// monitor: no lock held on return
 	for hk := range v.heldKeys {
 		recv := v.recvTerm(fr)
@@ -726,8 +728,9 @@ func (fr *Frame) execRange(st *State, x *ssa.Range) {
 	dk, _ := v.mapKeys(mt)
 	m := fr.term(st, x.X)
 	ks := v.smt.sortOf(mt.Key())
-	v.nIter++
-	vk := v.ghostKey(fmt.Sprintf("visited%d", v.nIter), "(Array "+ks+" Bool)")
+	ki := visitedKey(x, mt)
+	v.ensureKey(ki)
+	vk := ki.Key
 	v.setHeap(st, vk, fmt.Sprintf("((as const (Array %s Bool)) false)", ks))
 	dom0 := v.smt.define("range.dom0", "(Array "+ks+" Bool)", ite("(= "+m+" 0)", fmt.Sprintf("((as const (Array %s Bool)) false)", ks), sel(v.heap(st, dk), m)))
 	fr.vals[x] = Val{Iter: &mapIter{m: m, mt: mt, visited: vk, dom0: dom0}}
